@@ -6,7 +6,8 @@ From Lal Require Import Common.LBytes Common.Res
   Codec.CodecSpsAvc Codec.CodecSpsAvcSpec Codec.CodecAvcSeqHeader
   Codec.CodecSpsHevc Codec.CodecHevcSeqHeader
   Codec.CodecGolombProofs Codec.CodecEpbProofs Codec.CodecAvcSeqHeaderProofs
-  Codec.CodecHevcSeqHeaderProofs Codec.CodecSpsAvcProofs.
+  Codec.CodecHevcSeqHeaderProofs Codec.CodecSpsAvcProofs
+  Codec.CodecSeqHeaderMulti Codec.CodecSeqHeaderMultiProofs.
 Open Scope N_scope.
 
 (* ---- part A: sequence headers ---- *)
@@ -44,6 +45,37 @@ Theorem c19_seqheader_hevc : forall vps sps pps h,
   /\ hevc_seq_header2annexb h = Ok ([0; 0; 0; 1] ++ vps ++ [0; 0; 0; 1] ++ sps ++ [0; 0; 0; 1] ++ pps).
 Proof. exact hevc_seq_header_roundtrip. Qed.
 Print Assumptions c19_seqheader_hevc.
+
+(* SEVERAL parameter sets.  An AVCDecoderConfigurationRecord written as ISO/IEC
+   14496-15 5.2.4.1.1 says (avc_record_multi: any profile / compatibility /
+   level bytes, up to 31 SPS - 5-bit count - and 255 PPS - 8-bit count -, every
+   set shorter than 65536 bytes, arbitrary bytes): lal's list parser returns
+   every set, in order, byte for byte, and the Annex-B form is exactly a start
+   code in front of every set. *)
+Theorem c19_seqheader_avc_all_sets : forall prof compat lvl spss ppss,
+  (length spss < 32)%nat -> (length ppss < 256)%nat ->
+  Forall (fun x => lenN x < 65536) spss -> Forall (fun x => lenN x < 65536) ppss ->
+  avc_parse_seq_header_list (avc_record_multi prof compat lvl spss ppss) = Ok (spss, ppss)
+  /\ avc_seq_header2annexb (avc_record_multi prof compat lvl spss ppss)
+     = Ok (concat (map (fun x => [0; 0; 0; 1] ++ x) spss) ++ concat (map (fun x => [0; 0; 0; 1] ++ x) ppss)).
+Proof. intros; split; [apply avc_multi_parse_list|apply avc_multi_annexb]; assumption. Qed.
+Print Assumptions c19_seqheader_avc_all_sets.
+
+(* from seven sets on that Annex-B form is longer than the sequence header it
+   came from (2-byte length -> 4-byte start code against 12 bytes of record
+   overhead): the conversion cannot be done in a buffer of the input's size *)
+Theorem c19_annexb_longer_than_header : forall prof compat lvl spss ppss,
+  (7 <= length spss + length ppss)%nat ->
+  lenN (avc_record_multi prof compat lvl spss ppss)
+  < lenN (concat (map (fun x => [0; 0; 0; 1] ++ x) spss) ++ concat (map (fun x => [0; 0; 0; 1] ++ x) ppss)).
+Proof. exact avc_multi_annexb_longer. Qed.
+Print Assumptions c19_annexb_longer_than_header.
+
+Example c19_nonvacuous_multi :
+  avc_seq_header2annexb (avc_record_multi 100 0 31 [[103; 100]; [103; 77; 1]] [[104; 1]; []; [104; 2; 3]])
+  = Ok [0; 0; 0; 1; 103; 100; 0; 0; 0; 1; 103; 77; 1; 0; 0; 0; 1; 104; 1; 0; 0; 0; 1; 0; 0; 0; 1; 104; 2; 3]
+  /\ avc_hdr_sdp (avc_record_multi 100 0 31 [[103; 100]; [103; 77; 1]] [[104; 1]; []; [104; 2; 3]]) = Some ([103; 100], [104; 1]).
+Proof. vm_compute. split; reflexivity. Qed.
 
 (* ---- part D: SPS fields and picture size ---- *)
 
